@@ -63,6 +63,7 @@ static void run_len(size_t len, int finish)
 		ret = sm2_verify_finish(&ctx, buf, len);
 	}
 	if (ret == 1) {
+		V_COVER("accept path 1");
 		CHECK(g_core_calls == 1, "core verifier consulted");
 		canonical(buf, len);
 	}
@@ -96,6 +97,7 @@ void h_from_der_capacity(void)
 	int ret = sm2_signature_from_der(&o.sig, &p, &l);
 	for (int i = 0; i < 40; i++) CHECK(o.guard0[i] == 0xA5 && o.guard1[i] == 0xA5, "no write outside SM2_SIGNATURE");
 	if (ret == 1) {
+		V_COVER("accept path 2");
 		CHECK(p >= buf && p <= buf + len && l == (size_t)(buf + len - p), "cursor stays inside the input");
 	}
 	V_REACH();
